@@ -93,6 +93,9 @@ type VC struct {
 	boxedLocals []boxed
 	regions     map[string]string
 	arrayLits   map[string][]string
+	fresh_    map[string]bool
+	closureBinds map[string][]Val // closure terms -> the values bound at MakeClosure
+	fnOfTerm  map[string]*ssa.Function // terms known to denote a specific function / closure
 	deferred    []string
 	asserts     []string
 	obligs      []*Obligation
@@ -110,7 +113,7 @@ type VC struct {
 
 func newVC(p *Program, name string) *VC {
 	return &VC{prog: p, fnName: name, declared: map[string]bool{}, inlined: map[string]bool{}, assumed: map[string]bool{},
-		havocked: map[string]bool{}, structs: map[string]bool{}, litCache: map[string]string{}, compSorts: map[string]string{}, arrayLits: map[string][]string{}, regions: map[string]string{}, nonNil: map[string]bool{}, compTypes: map[string]types.Type{}, knownTag: map[string]int{}, tags: map[string]int{}, fnIDs: map[*ssa.Function]int{}}
+		havocked: map[string]bool{}, structs: map[string]bool{}, litCache: map[string]string{}, compSorts: map[string]string{}, closureBinds: map[string][]Val{}, fresh_: map[string]bool{}, fnOfTerm: map[string]*ssa.Function{}, arrayLits: map[string][]string{}, regions: map[string]string{}, nonNil: map[string]bool{}, compTypes: map[string]types.Type{}, knownTag: map[string]int{}, tags: map[string]int{}, fnIDs: map[*ssa.Function]int{}}
 }
 
 func (vc *VC) fresh(base string) string {
@@ -159,6 +162,14 @@ func (vc *VC) define(base, sort, term string) string {
 	}
 	n := vc.freshConst(base, sort)
 	vc.assert(fmt.Sprintf("(= %s %s)", n, term))
+	if sort == "Fn" {
+		if fn, ok := vc.fnOfTerm[term]; ok {
+			vc.fnOfTerm[n] = fn
+		}
+		if b, ok := vc.closureBinds[term]; ok {
+			vc.closureBinds[n] = b
+		}
+	}
 	return n
 }
 
@@ -434,6 +445,10 @@ type State struct {
 	alloc  string
 	wr     *writeRec // dry runs: what has been written on the way to this state
 	defers []deferRec
+	// heap cells (escaping locals, captured variables) that currently hold an interior pointer, kept as a
+	// symbolic location because such a pointer has no reference term: cell reference -> location
+	ptrCells map[string]*Loc
+	fnCells  map[string]*ssa.Function // fresh heap cells holding a statically known function value
 }
 
 func (s *State) clone() *State {
@@ -448,6 +463,18 @@ func (s *State) clone() *State {
 		n.wr = s.wr.clone()
 	}
 	n.defers = s.defers
+	if len(s.ptrCells) > 0 {
+		n.ptrCells = make(map[string]*Loc, len(s.ptrCells))
+		for k, v := range s.ptrCells {
+			n.ptrCells[k] = v
+		}
+	}
+	if len(s.fnCells) > 0 {
+		n.fnCells = make(map[string]*ssa.Function, len(s.fnCells))
+		for k, v := range s.fnCells {
+			n.fnCells[k] = v
+		}
+	}
 	return n
 }
 
@@ -496,6 +523,34 @@ func (vc *VC) mergeStates(conds []string, states []*State) *State {
 	}
 	out := &State{cells: map[*ssa.Alloc]string{}, heap: map[string]string{}}
 	out.defers = states[0].defers
+	if len(states[0].fnCells) > 0 {
+		out.fnCells = map[string]*ssa.Function{}
+		for k, v := range states[0].fnCells {
+			same := true
+			for _, o := range states[1:] {
+				if o.fnCells[k] != v {
+					same = false
+				}
+			}
+			if same {
+				out.fnCells[k] = v
+			}
+		}
+	}
+	if len(states[0].ptrCells) > 0 {
+		out.ptrCells = map[string]*Loc{}
+		for k, v := range states[0].ptrCells {
+			same := true
+			for _, o := range states[1:] {
+				if o.ptrCells[k] != v {
+					same = false
+				}
+			}
+			if same {
+				out.ptrCells[k] = v
+			}
+		}
+	}
 	for _, s := range states[1:] {
 		if len(s.defers) != len(out.defers) {
 			unsup("paths with different pending defers meet (conditional defer)")
